@@ -192,6 +192,13 @@ def check(sp, ops, pre=None):
         for n in nodes_[1::3]:
             if n.id in Node.store:
                 Node.delete_node_instance(n.id, children=False)
+    elif pre == "loose-parent-links":
+        # subtrees assembled through the public children list / setter carry no back link; a moved node keeps its old one
+        for i, n in enumerate(nodes_[1:]):
+            if i % 3 == 0:
+                n.parent = None
+            elif i % 3 == 1:
+                n.parent = nodes_[0]
     before = snapshot.deep([root, cp])
     before_store = snapshot.store()
     results = {}
@@ -232,7 +239,7 @@ def cases(draw):
     ops = [(pre.pick(OP_NAMES), pre.int(0, 30)) for _ in range(pre.int(3, 12))]
     if pre.bool():
         ops.append(pre.pick(ops))
-    pre_state = pre.pick([None, None, "loaded-twice", "unregistered"])
+    pre_state = pre.pick([None, None, "loaded-twice", "unregistered", "loose-parent-links"])
     valid = treegen.valid_spec(max_nodes=30)
     fx = treegen.subtrees_of_fixture(40)
     parts = [valid, treegen.mutated(valid, 1, 3).map(lambda t: t[0]), treegen.arb_spec(14)]
